@@ -151,6 +151,11 @@ def plan(tier, seed):
         shards.append({"kind": "grid", "nmin": 4, "nmax": 4, "part": i,
                        "parts": nsh, "offset": seed,
                        "stride": 24 if tier == "quick" else 2})
+    for kv in range(len(gdocs.KEY_VARIANTS)):
+        for i in range(4):
+            shards.append({"kind": "grid", "nmax": 3, "part": i, "parts": 4,
+                           "offset": seed, "keyvar": kv,
+                           "stride": 5 if tier == "quick" else 1})
     nh, per = (16, 150) if tier == "quick" else (64, 1500)
     for i in range(nh):
         shards.append({"kind": "hyp", "seed": seed * 1000 + i,
@@ -166,6 +171,18 @@ def run_shard(shard):
         for n in range(shard.get("nmin", 1), shard["nmax"] + 1):
             specs.extend(gdocs.specs_exact(n))
         plist = paths(2)
+        kv = shard.get("keyvar")
+        if kv is not None:
+            # the same grid moved onto other keys (negative / zero / wide
+            # ints, number-like text next to the int key, spaced text)
+            specs = gdocs.variant_specs(specs, kv)
+            plist = []
+            for segs, _, _ in paths(2):
+                segs = gdocs.variant_segs(segs, kv)
+                plist.append((segs, gpaths.render(
+                    segs, "/" if len(plist) % 2 else "."),
+                    gpaths.kinds(segs)))
+            res.label("keyvar:" + gdocs.KEY_VARIANTS[kv][0])
         for di in range(shard["part"], len(specs), shard["parts"]):
             if dl.expired():
                 res.truncated = True
